@@ -88,6 +88,14 @@ def check_typegen_inserted_on_all_paths(P, rule):
                                                      or (o[1].name in ("and_then", "map", "as_mut", "filter_map")
                                                          and re.search(r"get_mut\(|as_object_mut\(|as_object\(", f.describe_origin(o, short=True, deep=5)))):
                 continue
+            # the same shape test as one nested pattern (`if let Some(Value::Object(plugins)) = root.get_mut("plugins")`): the value found is
+            # not an object
+            ro = o
+            while ro[0] in ("proj", "ref") and isinstance(ro[1], tuple):
+                ro = ro[1]
+            if o[0] == "proj" and ro[0] == "call" and ro[1].name in ("get_mut", "get") and isinstance(outcome, str) and "Object" not in outcome.split("|") \
+                    and re.fullmatch(r"(Null|Bool|Number|String|Array)(\|(Null|Bool|Number|String|Array))*", outcome):
+                continue
             if t not in seen:
                 seen.add(t)
                 work.append(t)
@@ -306,6 +314,8 @@ def check(ctx):
                         pl = ds[0][3]["place"]
                     elif len(ds) == 1 and ds[0][0] == "stmt" and ds[0][3]["k"] == "use":
                         pl = op_place(ds[0][3]["op"])
+                    elif len(ds) == 1 and ds[0][0] == "stmt" and ds[0][3]["k"] == "aggr" and ds[0][3].get("variant") == "Object" and len(ds[0][3].get("ops", [])) == 1:
+                        pl = op_place(ds[0][3]["ops"][0])       # `Value::Object(root)`: the document kept as its member map
                     else:
                         break
                 if base_l is None:
@@ -326,13 +336,23 @@ def check(ctx):
                             continue
                         blk_of = d[1]
                         conds = f.must_conditions(blk_of)
-                        if any(re.match(r"call Value::is_object\(\)=false", x) for x in conds):
+                        # (the same test as a match on the parsed value: every variant but Object)
+                        not_object = any(re.match(r"call Value::is_object\(\)=false", x) for x in conds) or \
+                            any(re.search(r"=(?!.*\bObject\b)(Null|Bool|Number|String|Array)(\|(Null|Bool|Number|String|Array))*$", x) for x in conds)
+                        if not_object:
                             r1.ok("document replaced by a fresh value only under is_object()=false")
                         else:
                             r1.bad(V(r1.id, f.id, "document-replaced:%s" % ",".join(conds),
                                      "the parsed document is replaced under %s (expected only when it is not an object)" % conds, f.file, None))
                     if not parsed:
                         r1.bad(V(r1.id, f.id, "serialises-other-value", "the serialised variable `%s` is not the document parsed from the file" % f.varnames[base_l]))
+        def fresh_map(g, op):
+            o_ = g.origin(op)
+            while o_[0] in ("proj", "ref") and isinstance(o_[1], tuple):
+                o_ = o_[1]
+            if o_[0] == "multi":
+                return False
+            return o_[0] == "call" and re.search(r"serde_json::map::Map.*::new$", strip_generics(o_[1].path)) is not None
         # mutating JSON calls
         scope = P.reachable([SAVE_TC])
         for fid in sorted(scope):
@@ -357,6 +377,9 @@ def check(ctx):
                             r1.bad(V(r1.id, fid, "typegen-insert-receiver", 'insert("typegen") is not applied to the plugins object: %s' % recv, c.file, c.line))
                     elif c.exp:
                         # json! macro building the fresh typegen object
+                        r1.ok(None)
+                    elif fresh_map(g, c.args[0]):
+                        # the same object built by hand: inserts into a map this function created empty (`Map::new()`), not into the document
                         r1.ok(None)
                     else:
                         r1.bad(V(r1.id, fid, "unexpected-insert:%s" % key, "unexpected insertion of key %s into the document" % key, c.file, c.line))
@@ -384,6 +407,12 @@ def check(ctx):
             if e.get("k") == "macro" and e["name"] == "json" and "self" in e["tokens"]:
                 for m in re.finditer(r'"(\w+)"\s*:\s*self\s*\.\s*(\w+)', e["tokens"]):
                     writer[m.group(1)] = m.group(2)
+            # the same object built entry by entry: `section.insert("projectPath".to_string(), Value::String(self.project_path.clone()))`
+            if e.get("k") == "mcall" and e["method"] == "insert" and len(e.get("args", [])) == 2:
+                kt = lit_str(e["args"][0]) or re.sub(r'^"(\w+)"\s*\.\s*(to_string|to_owned|into)\(\)$', r"\1", expr_text(e["args"][0]))
+                mf = re.search(r"\bself\s*\.\s*(\w+)", expr_text(e["args"][1]))
+                if re.fullmatch(r"\w+", kt or "") and kt not in ("plugins", "typegen") and mf:
+                    writer.setdefault(kt, mf.group(1))
         # reader: `if let Some(x) = typegen.get("key")... { config.field = .. }`
         # local typed views of the section (`let text = |key: &str| typegen.get(key).and_then(|v| v.as_str());`): a closure whose body looks its own
         # parameter up with `.get(..)`; `text("projectPath")` then reads that key
